@@ -566,8 +566,16 @@ def a3_allocator_internals_stay_inside(prog):
     seen = set()
     for f in prog.fns.values():
         body = f.body
-        inside = f.path.startswith('entity::allocator::') or f.path.startswith('<entity::allocator::') or 'for entity::allocator::' in f.path or f.dp.startswith('brood::entity::allocator::')
-        touched = set()
+        def is_inside(path, dp):
+            return path.startswith('entity::allocator::') or path.startswith('<entity::allocator::') or 'for entity::allocator::' in path or dp.startswith('brood::entity::allocator::')
+        inside = is_inside(f.path, f.dp)
+
+        def written_inside(b):
+            # code of a helper the rule set has never seen is spliced into its callers (vlib/inline.py): it still
+            # *lives* in the function it was written in
+            o = body.blocks[b].get('inl')
+            return is_inside(o['path'], o['dp']) if o else inside
+        touched_in, touched_out = set(), set()
         for b, i, s in body.stmts():
             if s['k'] != 'assign':
                 continue
@@ -579,7 +587,7 @@ def a3_allocator_internals_stay_inside(prog):
                     if isinstance(e, dict) and 'f' in e:
                         base = peel_refs(body.place_ty({'l': p['l'], 'p': p['p'][:j]}))
                         if base is not None and base.get('k') == 'adt' and (base['path'], e['f']) in fields:
-                            touched.add('%s.%s' % (base['path'].rsplit('::', 1)[-1], fields[(base['path'], e['f'])]))
+                            (touched_in if written_inside(b) else touched_out).add('%s.%s' % (base['path'].rsplit('::', 1)[-1], fields[(base['path'], e['f'])]))
         for b, t in body.calls():
             for a in t['args']:
                 p = op_place(a)
@@ -589,16 +597,17 @@ def a3_allocator_internals_stay_inside(prog):
                     if isinstance(e, dict) and 'f' in e:
                         base = peel_refs(body.place_ty({'l': p['l'], 'p': p['p'][:j]}))
                         if base is not None and base.get('k') == 'adt' and (base['path'], e['f']) in fields:
-                            touched.add('%s.%s' % (base['path'].rsplit('::', 1)[-1], fields[(base['path'], e['f'])]))
-        if not touched:
+                            (touched_in if written_inside(b) else touched_out).add('%s.%s' % (base['path'].rsplit('::', 1)[-1], fields[(base['path'], e['f'])]))
+        if not touched_in and not touched_out:
             continue
         top = f
         while top.kind == 'Closure' and top.parent in prog.fns:
             top = prog.fns[top.parent]
-        if inside:
+        if touched_in and inside:
             if top.dp not in seen:
                 seen.add(top.dp)
-                r.inst('%s touches %s' % (top.path[:80], sorted(touched)))
-        else:
-            r.viol('A3', '%s/touches-allocator-internals' % top.path, f.loc(), 'function %s outside the allocator module accesses %s directly: identifiers must be resolved through Allocator::get / is_active (generation check) and changed through the allocator\'s methods' % (top.name, sorted(touched)))
+                r.inst('%s touches %s' % (top.path[:80], sorted(touched_in)))
+        if touched_out:
+            outs = sorted({body.blocks[b].get('inl', {}).get('path', '') for b in range(body.n) if body.blocks[b].get('inl') and not written_inside(b)} - {''})
+            r.viol('A3', '%s/touches-allocator-internals' % (top.path if not inside else outs[0] if outs else top.path), f.loc(), 'function %s outside the allocator module accesses %s directly: identifiers must be resolved through Allocator::get / is_active (generation check) and changed through the allocator\'s methods' % (top.name if not inside else (outs[0] if outs else top.name), sorted(touched_out)))
     return r
